@@ -167,3 +167,69 @@ def rule_lookahead_restores(ctx, rep, rid: str, modules: Tuple[str, ...] = ("par
                     rep.bad(rid, key, f"{m.qual} moves the cursor at line {mv.line} and can return through lines {[x.line for x in p if x.line][:8]} without putting it back (its other exits restore it): the caller continues parsing from wherever the look-ahead stopped", f"{m.module.rel}:{mv.line}")
     if n < 2:
         raise AnalysisError(f"only {n} look-ahead helper(s) that restore the cursor found")
+
+
+# ---------------------------------------------------------------------------------------------------
+def rule_saved_state_restored(ctx, rep, rid: str, modules: Tuple[str, ...] = ("parser", "lexer", "regex.parser"), floor: int = 0) -> None:
+    """A parser mode flag that a method saves into a local, overwrites and puts back (`saved = self.flag;
+    self.flag = v; ...; self.flag = saved`) has to be put back on EVERY path that returns normally: an early
+    `return` between the overwrite and the restore leaves the mode switched for everything parsed afterwards."""
+    rep.rule(rid, "a method of the front end that saves an attribute of the parser in a local, overwrites it and restores it from that local restores it on every path from the overwrite to a normal return (early returns included; a try/finally counts): otherwise the mode leaks into whatever is parsed next", floor=floor)
+    # positive control
+    src = "class P:\n    def m(self):\n        saved = self.flag\n        self.flag = False\n        x = self.e()\n        if self.t():\n            return x\n        self.flag = saved\n        return x\n"
+    n = 0
+    for modname in modules:
+        mod = ctx.tree.mod(modname)
+        for ci in mod.classes.values():
+            for m in ci.all_methods:
+                if isinstance(m.node, ast.Lambda):
+                    continue
+                for attr, local, over, restores in _save_overwrite_restore(m):
+                    n += 1
+                    cfg = ctx.facts.cfg(m)
+                    rnodes = {nd.id for nd in cfg.nodes if nd.ast is not None and any(x is r for r in restores for x in ast.walk(nd.ast))}
+                    onodes = [nd for nd in cfg.nodes if nd.ast is not None and any(x is over for x in ast.walk(nd.ast))]
+                    key = f"{m.qual}:self.{attr} restored from {local}"
+                    bad = None
+                    for o in onodes:
+                        p = cfg.path_avoiding(o.id, lambda nd: nd.id == cfg.exit.id, rnodes, None, start_succ=True)
+                        if p is not None:
+                            bad = (o, p)
+                            break
+                    if bad is None:
+                        rep.ok(rid, key, {"restores": len(restores)})
+                    else:
+                        o, p = bad
+                        rep.bad(rid, key, f"{m.qual} saves self.{attr} in `{local}`, overwrites it at line {o.line} and can return through lines {[x.line for x in p if x.line][:8]} without putting it back (its other exits restore it): the mode stays switched for whatever is parsed next", f"{m.module.rel}:{o.line}")
+    ctl = ast.parse(src)
+    for x in ast.walk(ctl):
+        for c in ast.iter_child_nodes(x):
+            c._parent = x  # type: ignore[attr-defined]
+    fn = ctl.body[0].body[0]
+
+    class _F:
+        node = fn
+
+        @staticmethod
+        def own_nodes():
+            return list(ast.walk(fn))
+
+    if len(list(_save_overwrite_restore(_F))) != 1:  # type: ignore[arg-type]
+        raise AnalysisError("positive control failed: save/overwrite/restore pattern not recognised")
+    rep.ok(rid, "saved-state", {"save_overwrite_restore_patterns": n})
+
+
+def _save_overwrite_restore(m):
+    """(attribute, local, overwrite statement, [restore statements]) for each attribute of self that the method
+    saves in a local, assigns something else and assigns back from that local."""
+    saves: Dict[str, str] = {}
+    for a in m.own_nodes():
+        if isinstance(a, ast.Assign) and len(a.targets) == 1 and isinstance(a.targets[0], ast.Name) and isinstance(a.value, ast.Attribute) and norm(a.value.value) == "self":
+            saves[a.targets[0].id] = a.value.attr
+    for local, attr in saves.items():
+        writes = [a for a in m.own_nodes() if isinstance(a, ast.Assign) and any(isinstance(t, ast.Attribute) and norm(t.value) == "self" and t.attr == attr for t in a.targets)]
+        restores = [a for a in writes if isinstance(a.value, ast.Name) and a.value.id == local]
+        overs = [a for a in writes if a not in restores]
+        if restores and overs:
+            for o in overs:
+                yield attr, local, o, restores
